@@ -261,6 +261,11 @@ func checkC02(c *Ctx) string {
 	checkC02Immutable(c, eng)
 	checkC02Ownership(c, src)
 
+	checkLookupCacheBypass(c, "C02.10 K4c the join lookup cache is bypassed for update transactions")
+	if simple := c.P.Func("db19/index", "NewSimpleIter"); c.need("C02.11 anchors", "index.NewSimpleIter", simple) {
+		c.Callers("C02.11 K3 the iterator that does not see the transaction's own writes is created only for read transactions", []*types.Func{simple}, []string{"db19.(*ReadTran).IndexIter"}, 1)
+	}
+	checkTranReadsItsSnapshot(c, "C02.9 K3 a transaction reads the database only through its snapshot")
 	return "Static immutability of published database state. Publication: stateHolder.state is stored only by set, set is called only by updateState/CreateDb/OpenDbStor, updateState holds the mutex " +
 		"from before get to after set and passes the callback the address of a local copy which is what it publishes. K12 (AST-level distance-to-shared-memory analysis with by-effect mutator and " +
 		"copy-point summaries over the whole module, refined by go/cfg reaching definitions): no field/element store, copy, delete, in-place append or call of a function that writes through its " +
